@@ -167,7 +167,7 @@ def build_model():
             if r.returncode != 0:
                 return None, r.stderr[-4000:]
             order = r.stdout.split()
-            r = sh(['ocamlfind', 'ocamlopt', '-O3', '-w', '-a'] + order + ['-o', 'model_driver'], cwd=scratch)
+            r = sh(['ocamlfind', 'ocamlopt', '-package', 'unix', '-linkpkg', '-O3', '-w', '-a'] + order + ['-o', 'model_driver'], cwd=scratch)
             if r.returncode != 0:
                 return None, r.stdout[-4000:]
             os.makedirs(CACHE, exist_ok=True)
